@@ -206,6 +206,43 @@ pub fn run(seed: u64, n: u64) {
             let rt = guarded(|| serde_json::to_value(&pres).map_err(|e| format!("{}", e)).and_then(|v| Pres::try_from(v).map_err(|e| format!("{:#}", e))));
             out["json_roundtrip"] = match rt { Ok(Ok(p2)) => vb(&p2, &global, &public), Ok(Err(e)) => json!(format!("PARSE-ERR {}", e)), Err(_) => json!("SERIALIZE-PANIC") };
 
+            // ---- JSON layer: every structural mutation of the serialised presentation that still parses
+            if let Some(j0) = guarded(|| serde_json::to_value(&pres).ok()).ok().flatten() {
+                let mut jm: Vec<J> = Vec::new();
+                let mut unparse = 0u32;
+                for (name, m) in json_mutations(&j0) {
+                    match guarded(|| Pres::try_from(m.clone()).ok()) {
+                        Err(_) => jm.push(json!([name, "PANIC"])),
+                        Ok(None) => unparse += 1,
+                        Ok(Some(p2)) => {
+                            let back = guarded(|| serde_json::to_value(&p2).ok()).ok().flatten();
+                            let faithful = back.as_ref() == Some(&m);
+                            let same = p2 == pres;
+                            let mut lp = p2.linking_proof.clone(); lp.created = pres.linking_proof.created;
+                            let same_mod_meta = p2.presentation_context == pres.presentation_context && lp == pres.linking_proof
+                                && p2.verifiable_credential.len() == pres.verifiable_credential.len()
+                                && p2.verifiable_credential.iter().zip(pres.verifiable_credential.iter()).all(|(a, b)| match (a, b) {
+                                    (CredentialProof::Account { proofs: pa, .. }, CredentialProof::Account { proofs: pb, .. }) => pa == pb,
+                                    _ => a == b });
+                            jm.push(json!([name, faithful, same, same_mod_meta, vb(&p2, &global, &public)]));
+                        }
+                    }
+                }
+                out["json"] = json!(jm);
+                out["json_unparseable"] = json!(unparse);
+            }
+            if let Some(r0) = guarded(|| serde_json::to_value(&request).ok()).ok().flatten() {
+                let mut jr: Vec<J> = Vec::new();
+                let rt = serde_json::from_value::<Request<ArCurve, W>>(r0.clone()).ok();
+                jr.push(json!(["roundtrip", true, rt.as_ref() == Some(&request)]));
+                for (name, m) in json_mutations(&r0) {
+                    if let Ok(Some(q2)) = guarded(|| serde_json::from_value::<Request<ArCurve, W>>(m.clone()).ok()) {
+                        let back = guarded(|| serde_json::to_value(&q2).ok()).ok().flatten();
+                        jr.push(json!([name, back.as_ref() == Some(&m), q2 == request]));
+                    }
+                }
+                out["json_request"] = json!(jr);
+            }
             let mut pert: Vec<J> = Vec::new();
             let mut accept: Vec<J> = Vec::new();
             let body = pres.verifiable_credential.clone();
